@@ -463,7 +463,7 @@ def depth_levels(spec):
 # ---------------------------------------------------------------- strategy
 @st.composite
 def specs(draw, tier='quick', max_books=2, arrays=True, names=True, wholecols=True, errors=True,
-          min_cells=4, max_cells=14, const=None, sheet_classes=None, name_rate=6, arr_rate=10, alias_rate=0, fname_rate=0, undef_rate=0, anchor_rate=0, book_names=None):
+          min_cells=4, max_cells=14, const=None, sheet_classes=None, name_rate=6, arr_rate=10, alias_rate=0, fname_rate=0, undef_rate=0, anchor_rate=0, book_names=None, fname_names=False):
     nb = draw(st.integers(1, max_books))
     bname = draw(st.sampled_from(book_names)) if book_names else 'b%d.xlsx'
     used_names = set()
@@ -523,9 +523,13 @@ def specs(draw, tier='quick', max_books=2, arrays=True, names=True, wholecols=Tr
         if fname_rate and len(spec['fnames']) < 2 and draw(st.integers(0, fname_rate - 1)) == 0:
             # a name defined by a formula over earlier cells of this book (or by a constant)
             mine = [k_ for k_ in earlier if k_[0] == key[0]]
-            kind_ = draw(st.integers(0, 3))
+            kind_ = draw(st.integers(0, 5 if fname_names else 3))
             ft = None
-            if kind_ == 0 or not mine:
+            nm_mine = [j for j, nm_ in enumerate(spec['names']) if nm_['rect'][0] == key[0]]
+            if kind_ >= 4 and nm_mine:
+                # a name defined through another name (TOTAL = SUM(RATES))
+                ft = ['fn', 'SUM', ['name', draw(st.sampled_from(nm_mine))]]
+            elif kind_ in (0, 4, 5) or not mine:
                 ft = ['num', draw(st.sampled_from([0.25, 2.0, -3.0, 10.0]))]
             elif kind_ == 1:
                 ft = ['bin', draw(st.sampled_from(['*', '+', '-'])), ['ref', list(draw(st.sampled_from(mine)))], ['num', 2.0]]
